@@ -173,27 +173,39 @@ JsonCatalog ==     \* text -> [ok, deep value]
      [t |-> <<91, 49, 44, 93>>, ok |-> FALSE, d |-> [t |-> "nil"]] >>                                                  \* [1,]
 JsonLookup(txt) == LET S == {i \in 1..Len(JsonCatalog) : JsonCatalog[i].t = txt}
                    IN IF S = {} THEN [known |-> FALSE] ELSE [known |-> TRUE, e |-> JsonCatalog[CHOOSE i \in S : TRUE]]
-RegexCatalog ==    \* (pattern, subject, replacement) -> result; pattern validity
-  << [p |-> <<97, 43>>, s |-> <<99, 97, 97, 116>>, r |-> <<88>>, ok |-> TRUE, out |-> <<99, 88, 116>>],                       \* a+ / caat / X
-     [p |-> <<97, 43>>, s |-> <<120, 121>>, r |-> <<88>>, ok |-> TRUE, out |-> <<120, 121>>],                                 \* no match
-     [p |-> <<97, 43>>, s |-> <<>>, r |-> <<88>>, ok |-> TRUE, out |-> <<>>],
-     [p |-> <<40, 92, 100, 43, 41, 45, 40, 92, 100, 43, 41>>, s |-> <<49, 50, 45, 51, 52>>, r |-> <<36, 50, 45, 36, 49>>,
-      ok |-> TRUE, out |-> <<51, 52, 45, 49, 50>>],                                                                           \* (\d+)-(\d+) / 12-34 / $2-$1
-     [p |-> <<97, 43>>, s |-> <<55>>, r |-> <<88>>, ok |-> TRUE, out |-> <<55>>],                                             \* subject "7" (an int's string form)
-     [p |-> <<40>>, s |-> <<99, 97, 97, 116>>, r |-> <<88>>, ok |-> FALSE, out |-> <<>>],                                     \* ( : bad pattern
-     [p |-> <<40>>, s |-> <<>>, r |-> <<88>>, ok |-> FALSE, out |-> <<>>] >>
+\* RegexCatalog: in Catalogs (generated from spec/catalogs.json, verified against Go's regexp by `vh catalog-check`)
 RegexLookup(p, subj, r) == LET S == {i \in 1..Len(RegexCatalog) : RegexCatalog[i].p = p /\ RegexCatalog[i].s = subj /\ RegexCatalog[i].r = r}
                            IN IF S = {} THEN [known |-> FALSE] ELSE [known |-> TRUE, e |-> RegexCatalog[CHOOSE i \in S : TRUE]]
 RegexBad(p) == \E i \in 1..Len(RegexCatalog) : RegexCatalog[i].p = p /\ ~RegexCatalog[i].ok
 
-\* numeric reading of a string for cast (strconv.ParseFloat semantics on the catalogued spellings; others read as 0)
-StrNum(s) == CASE s = <<49, 50>> -> FFin(FALSE, <<3>>, 2)          \* "12"
-               [] s = <<49, 46, 53>> -> FFin(FALSE, <<3>>, -1)      \* "1.5"
-               [] s = <<55>> -> FFin(FALSE, <<7>>, 0)               \* "7"
-               [] s = <<45, 51>> -> FFin(TRUE, <<3>>, 0)            \* "-3"
-               [] s = <<48>> -> FZero(FALSE)
-               [] OTHER -> FZero(FALSE)
-StrNumKnown(s) == s \in {<<49, 50>>, <<49, 46, 53>>, <<55>>, <<45, 51>>, <<48>>, <<>>, <<120>>, <<116, 114, 117, 101>>, <<97, 98>>}
+\* numeric reading of a string for cast: strconv.ParseFloat on the whole string (no trimming).  A plain decimal spelling
+\* ([+-] digits [. digits] [e [+-] digits]) is its nearest double; a string containing any byte that no float spelling contains
+\* (anything but digits + - . _ and the letters of e/x/p/inf/infinity/nan) and the empty string read as 0; the rest is unknown.
+DigB(b) == b >= 48 /\ b <= 57
+AllDigB(s) == \A i \in 1..Len(s) : DigB(s[i])
+FirstOf(s, set) == LET S == {i \in 1..Len(s) : s[i] \in set} IN IF S = {} THEN 0 ELSE CHOOSE i \in S : \A j \in S : i <= j
+RECURSIVE SmallDec(_, _, _)
+SmallDec(s, i, acc) == IF i > Len(s) THEN acc ELSE SmallDec(s, i + 1, acc * 10 + (s[i] - 48))
+PlainDec(s) ==
+  LET sg == Len(s) >= 1 /\ s[1] \in {43, 45}
+      body == IF sg THEN Tail(s) ELSE s
+      ePos == FirstOf(body, {101, 69})
+      mant == IF ePos = 0 THEN body ELSE SubSeq(body, 1, ePos - 1)
+      expo == IF ePos = 0 THEN <<>> ELSE SubSeq(body, ePos + 1, Len(body))
+      dot == FirstOf(mant, {46})
+      ip == IF dot = 0 THEN mant ELSE SubSeq(mant, 1, dot - 1)
+      fp == IF dot = 0 THEN <<>> ELSE SubSeq(mant, dot + 1, Len(mant))
+      esg == expo # <<>> /\ expo[1] \in {43, 45}
+      ed == IF esg THEN Tail(expo) ELSE expo
+      ok == AllDigB(ip) /\ AllDigB(fp) /\ (ip # <<>> \/ fp # <<>>) /\ Len(ip) + Len(fp) <= 18
+            /\ (ePos # 0 => (ed # <<>> /\ AllDigB(ed) /\ Len(ed) <= 2))
+      ev == IF ePos = 0 \/ ~ok THEN 0 ELSE SmallDec(ed, 1, 0)
+  IN [ok |-> ok, neg |-> sg /\ s[1] = 45, ds |-> [i \in 1..Len(ip \o fp) |-> (ip \o fp)[i] - 48],
+      e10 |-> (IF esg /\ expo[1] = 45 THEN 0 - ev ELSE ev) - Len(fp)]
+FloatAlphabet == (48..57) \cup {43, 45, 46, 95} \cup {101, 69, 120, 88, 112, 80, 105, 73, 110, 78, 102, 70, 116, 84, 121, 89, 97, 65}
+StrNotNumber(s) == s = <<>> \/ (\E i \in 1..Len(s) : ~(s[i] \in FloatAlphabet)) \/ s \in {<<120>>, <<101>>, <<46>>, <<45>>, <<43>>}
+StrNumKnown(s) == PlainDec(s).ok \/ StrNotNumber(s)
+StrNum(s) == LET d == PlainDec(s) IN IF d.ok THEN FFromDecimal(d.neg, d.ds, d.e10) ELSE FZero(FALSE)
 \* float -> int64 by truncation (only values below 2^53 are used)
 FTrunc(f) == IF f.c # "fin" \/ f.man = <<>> THEN IZero
              ELSE IF f.exp >= 0 THEN IMk(f.neg, BnShl(f.man, f.exp)) ELSE IMk(f.neg, BnShr(f.man, 0 - f.exp))
